@@ -258,6 +258,8 @@ class World:
                 st["A"] = subset(free, 3)
         elif op == "remove":
             st["x"] = rng.choice(mem) if mem and rng.random() < 0.85 else rng.choice(jobsy)
+        elif op == "sanitize":
+            st["f1"] = rng.random() < 0.4
         if st.get("qs") == "auto":
             st["qs"] = rng.choice(live)
         if st.get("qA") == "auto":
@@ -289,7 +291,7 @@ class World:
                 got = s.remove(x)
                 ret = "self" if got is s else "other"
             elif op == "sanitize":
-                got = s.sanitize()
+                got = s.sanitize(verbose=True) if st.get("f1") else s.sanitize()
                 ret = "true" if got is True else "false" if got is False else "other"
             elif op == "bypass":
                 s.bypass_and_remove(x)
@@ -304,6 +306,9 @@ class World:
                 s.keep_only_between(keep_starts=st["f1"], keep_ends=st["f2"], **kwds)
             elif op == "query":
                 pass
+            elif op == "scan":
+                # one scan of the graph and nothing else (scans leave marks on the jobs)
+                s.check_cycles()
             elif op == "display":
                 # calls that only show the scheduler: they must leave the graph, and what the
                 # queries answer afterwards, alone
@@ -333,13 +338,22 @@ def _alarm(_signum, _frame):
     raise WallClock()
 
 
+HANGS = [0]
+
+
 def run_history(item):
+    # once two histories have hung (their verdict is settled: a hang is a rejection), the
+    # remaining ones get a short leash so that a looping library does not cost minutes
+    limit = 15 if HANGS[0] < 2 else 3
     signal.signal(signal.SIGALRM, _alarm)
-    signal.setitimer(signal.ITIMER_REAL, 15, 15)
+    signal.setitimer(signal.ITIMER_REAL, limit, limit)
     try:
-        return _run_history(item)
+        out = _run_history(item)
     finally:
         signal.setitimer(signal.ITIMER_REAL, 0)
+    if '"WallClock"' in json.dumps(out):
+        HANGS[0] += 1
+    return out
 
 
 def _run_history(hist):
